@@ -387,6 +387,11 @@ def cli_cross(ctx, specs, violations, limit=40, tag="cli", with_eval=False):
         want_out = "".join(chr(c) for c in sm["out"])
         err = [l for l in se.decode("utf-8", errors="replace").split("\n")
                if l and not any(l.startswith(v) for v in VM_MESSAGES)]
+        if sm["kind"] == 2:
+            # the model ends in a panic (exit status 101): the Rust runtime's own report of it is not debugger output
+            cut = next((j for j, l in enumerate(err) if l.startswith("thread '") and "panicked at" in l), None)
+            if cut is not None:
+                err = err[:cut]
         why = None
         if rc != want_rc:
             why = f"exit status {rc}, model {want_rc}"
